@@ -65,6 +65,8 @@ def projection(cv) -> list:
             out.append((k, e[1], e[2] - b))
         elif k == "att_end":
             out.append((k,) + tuple(repr(x) for x in e[1:6]) + (e[6] - b,))
+        elif k in ("args_mangled", "strat_args_clobbered"):
+            out.append(tuple(repr(x) for x in e))
         elif k in ("classify", "rclassify", "strat_rec", "fault"):
             out.append(tuple(repr(x) for x in e))
     f = dict(cv.final)
